@@ -315,7 +315,15 @@ func (c15Engine) Exec(t *testing.T, cc any) *simrt.Result {
 		evs := (&CacheCase{Events: c.Events}).build()
 		model := &c15Model{cap: c.Cap, evs: evs, by: idsOf(evs)}
 		h := mocrelay.NewCacheHandler(c.Cap)
-		cache := cacheOf(h)
+		cache := cacheOfOrNil(h)
+		if cache == nil && !RaceMode {
+			// the store is not there before the first operation: only the
+			// handler's own sessions can be used (and must be, from the start)
+			c.Mode = "session"
+			st.Probe("store_built_on_first_use")
+		} else if cache == nil {
+			cache = cacheOf(h)
+		}
 
 		recs := make([][]*c15Rec, len(c.Clients))
 		cur := make([]*c15Rec, len(c.Clients)) // op in progress per client
